@@ -229,9 +229,4 @@ def exclLegacyKeyCollision (k : RouterKind) (d : Doc) : Bool :=
 def exclGorillaPathServersLeak (k : RouterKind) (d : Doc) (r : Req) : Bool :=
   k = .gorilla && gorillaFind d r ≠ gorillaFindFixed d r
 
-/-- the shape of document on which the leak can show: in matching order, a path item with servers precedes one without -/
-def leakShape : List PathDecl → Bool
-  | [] => false
-  | p :: ps => (p.servers ≠ [] && ps.any (fun q => q.servers = [])) || leakShape ps
-
 end KinModel.Router
